@@ -7,7 +7,7 @@
    return the package itself; every argument check of create_table / drop_table precedes the first change.
    Statements only; every proof is `exact <lemma>` from theories/. *)
 From Coq Require Import Sorting.Sorted Permutation.
-From MsiModel Require Import Base Sexp Value Expr Category Column CodePage Pool Table Container StreamName Propset Summary Query Package PoolProofs TableProofs QueryProofs DbInv CatalogProofs PropsetCodecProofs PackageProofs PkgInv UpdateRefine PkgInv2 InsertRefine DeleteRefine DmlPkgProofs DropTableProofs MiscOpsProofs ReopenProofs CreateTableLemmas CreateTableProofs StreamProofs Reach KnownFindings.
+From MsiModel Require Import Base Sexp Value Expr Category Column CodePage Pool Table Container StreamName Propset Summary Query Package PoolProofs TableProofs QueryProofs DbInv CatalogProofs PropsetCodecProofs PackageProofs PkgInv UpdateRefine PkgInv2 InsertRefine DeleteRefine DmlPkgProofs DropTableProofs MiscOpsProofs ReopenProofs CreateTableLemmas CreateTableProofs StreamProofs Reach KnownFindings CreateTableDrySpec CreateTableDry.
 From MsiGen Require Import GenConsts GenCatalog GenStreamName.
 Open Scope N_scope.
 
@@ -99,6 +99,38 @@ Theorem C04_select_unknown_column :
          is_ok (exec_select prof c p ts (Sel (JTable tn) names cond)) = false.
 Proof. exact select_unknown_column. Qed.
 
+(* the source dry-runs the three catalog inserts (Insert::check) before it changes anything (fix 25601e5) *)
+Theorem C04_create_table_dry_runs :
+  G_dry_runs_now.
+Proof. exact dry_runs_now. Qed.
+
+(* what the dry run refuses, the insert would have refused *)
+Theorem C04_dry_run_is_prefix :
+  G_check_is_prefix.
+Proof. exact check_is_prefix. Qed.
+
+(* an insert that succeeds passed the dry run *)
+Theorem C04_dry_run_ok_prefix :
+  G_check_ok_prefix.
+Proof. exact check_ok_prefix. Qed.
+
+(* a refusal that only the dry runs produce returns the package itself *)
+Theorem C04_dry_run_refusal_noop :
+  forall (prof : profile) (k : pkg) (tn : str) (cols : list column) (k' : pkg),
+         pkg_create_table_with true prof k tn cols = (k', Err) ->
+         pkg_create_table_with false prof k tn cols = (k', Err) \/ k' = k.
+Proof. exact dry_run_refusal_noop. Qed.
+
+(* _Validation rows describing a table that does not exist: create_table is refused and NOTHING changed *)
+Theorem C04_orphan_validation_refused :
+  G_orphan_refused.
+Proof. exact orphan_refused. Qed.
+
+(* the repaired defect: without the dry runs the refused call left the table half-created *)
+Theorem C04_orphan_validation_before_fix :
+  G_orphan_before_fix.
+Proof. exact orphan_before_fix. Qed.
+
 Print Assumptions C04_dml.
 Print Assumptions C04_dml_saved.
 Print Assumptions C04_create_table.
@@ -109,3 +141,9 @@ Print Assumptions C04_streams.
 Print Assumptions C04_insert_unknown_table.
 Print Assumptions C04_insert_arity.
 Print Assumptions C04_select_unknown_column.
+Print Assumptions C04_create_table_dry_runs.
+Print Assumptions C04_dry_run_is_prefix.
+Print Assumptions C04_dry_run_ok_prefix.
+Print Assumptions C04_dry_run_refusal_noop.
+Print Assumptions C04_orphan_validation_refused.
+Print Assumptions C04_orphan_validation_before_fix.
